@@ -47,6 +47,15 @@ abbrev mqStep := Librfn.Model.MessageqConc.step
 
 inductive Kind
   | handler | yielder | sleeper (period : BitVec 32) | waiter
+  /-- a fibre whose body is scripted by the history (like C01's): during its dispatch it calls `fibre_run(g)` /
+      `fibre_kill(g)` — main-context calls with their own atomic points, nested inside the pass — and then returns the
+      scripted code -/
+  | scripted
+  deriving DecidableEq, Repr
+
+/-- a call the running (scripted) fibre makes during its dispatch -/
+inductive BCall
+  | run (g : Fid) | kill (g : Fid)
   deriving DecidableEq, Repr
 
 /-- an interrupt-context call -/
@@ -70,6 +79,8 @@ inductive Cont
   | kill (f : Fid)     -- fibre_kill(f): then the two list_remove
   | pass1              -- fibre_scheduler_next: then update_current_state …
   | pass2 (c : Fid)    -- the handle_atomic_runq inside update_current_state's fibre_run(kernel.current)
+  | brun (g : Fid)     -- fibre_run(g) called by the running fibre: then make_runnable(g) and the rest of the body
+  | bkill (g : Fid)    -- fibre_kill(g) called by the running fibre
   deriving DecidableEq, Repr
 
 /-- control location of the main context.  "B" locations are immediately before an atomic operation,
@@ -124,6 +135,7 @@ inductive Tok
   | commit (f : Fid)                      -- the fetch_or that publishes a run request for `f`
   | claimed (st : Nat)                    -- the compare-exchange handing out an event buffer (to be stamped `st`)
   | done (lvl : Nat) (c : ICall) (r : IRes) (n : Nat)
+  | bcall (c : BCall) (b : Bool)          -- a call made by the running fibre returned (`b`: what fibre_kill returned)
   | threadBegin                           -- a sender on another thread enters its call
   | mret (c : MCall) (self : Option Fid) (wake : BitVec 32) (b : Bool) (n : Nat)
   | hang
@@ -141,6 +153,9 @@ structure S where
   kind : Fid → Kind := fun _ => .waiter
   budget : Fid → Nat := fun _ => 0
   sdue : Fid → BitVec 32 := fun _ => 0
+  /-- what a scripted fibre still has to do during the current dispatch, and what it then returns -/
+  bscript : List BCall := []
+  bret : Ret := .waiting
   mpc : MPc := .idle
   ipc : Nat → IPc := fun _ => .idle
   ires : Nat → IRes := fun _ => .pending
@@ -246,6 +261,14 @@ def returned (s : S) (r : Ret) : S :=
     finishPass (emit (.bodyReturned true) (tok (.bret r) { s with k := { s.k with state := r } })) s.k.now
   else emit (.bodyReturned false) (tok (.bret r) { s with k := { s.k with state := r }, mpc := .wake })
 
+/-- a scripted body continues: its next call (whose first atomic operation is the `messageq_receive` of
+    `handle_atomic_runq`), or its return -/
+def bodyStep (s : S) : S :=
+  match s.bscript with
+  | [] => returned s s.bret
+  | .run g :: r => { s with bscript := r, mpc := .recv (.brun g), drainFrom := s.aq.received }
+  | .kill g :: r => { s with bscript := r, mpc := .recv (.bkill g), drainFrom := s.aq.received }
+
 /-- the entry point of fibre `c`, by kind, up to its first atomic operation or its return -/
 def bodyOf (s : S) (c : Fid) : S :=
   match s.kind c with
@@ -262,6 +285,7 @@ def bodyOf (s : S) (c : Fid) : S :=
                    sdue := upd s.sdue c (s.k.now + period) })) .waiting
     else returned (tok (.tmo false) { s with k := (fibreTimeout s.k c (s.sdue c)).1 }) .waiting
   | .waiter => returned s .waiting
+  | .scripted => bodyStep s
 
 /-- `kernel.current->fn(kernel.current)` for `kernel.current = c` -/
 def body (s : S) (c : Fid) : S :=
@@ -275,6 +299,16 @@ def dispatch (s : S) : S :=
 
 /-- `handle_timerq(); kernel.current = get_next_task();` and the dispatch -/
 def afterUpdate (s : S) : S := dispatch { s with k := getNextTask (handleTimerq s.k) }
+
+/-- a scripted body's `fibre_run(g)` after its drain loop -/
+def brunPre (s : S) (g : Fid) : S := tok (.bcall (.run g) false) { s with k := makeRunnable s.k g }
+
+/-- a scripted body's `fibre_kill(g)` after its drain loop -/
+def bkillPre (s : S) (g : Fid) : S :=
+  tok (.bcall (.kill g) (decide (g ∈ s.k.runq) || decide (g ∈ s.k.timerq)))
+    (emit (.killed g)
+      { s with k := { s.k with runq := s.k.runq.erase g, timerq := s.k.timerq.erase g }
+               handlerKilled := s.handlerKilled || decide (g = HANDLER) })
 
 /-- the drain loop of `handle_atomic_runq` has received NULL: continue with the caller -/
 def afterDrain (s : S) : Cont → S
@@ -295,6 +329,8 @@ def afterDrain (s : S) : Cont → S
       | .exited => afterUpdate { s with k := { s.k with priv := upd s.k.priv c 0 } }
       | .waiting => afterUpdate s
   | .pass2 c => afterUpdate { s with k := makeRunnable s.k c }
+  | .brun g => bodyStep (brunPre s g)
+  | .bkill g => bodyStep (bkillPre s g)
 
 /-- `get_next_wakeup` once `messageq_empty(&kernel.atomic_runq)` returned `e` -/
 def wakeValue (k : K) (e : Bool) : BitVec 32 :=
@@ -420,9 +456,12 @@ def isrGap (script : Script) : Point → S → S :=
 structure MItem where
   call : MCall
   script : Script := []
+  /-- what the dispatched fibre does if it is a scripted one -/
+  body : List BCall := []
+  bret : Ret := .waiting
   deriving Repr
 
-def runMItem (s : S) (m : MItem) : S := callMain (isrGap m.script) m.call s
+def runMItem (s : S) (m : MItem) : S := callMain (isrGap m.script) m.call { s with bscript := m.body, bret := m.bret }
 
 def threadGap (script : List (Point × MItem)) : Point → S → S :=
   fun p s => (script.filter (fun e => e.1 = p)).foldl (fun s e => runMItem s e.2) s
@@ -450,7 +489,7 @@ def runItem (s : S) (it : Item) : S :=
   | .main m => runMItem s m
   | .isr e => runIsr s e
   | .thread c script => emit .threadEnd (callSender (threadGap script) 2 c (tok .threadBegin (emit .threadBegin s)))
-  | .quiesce => quiesceLoop 64 { s with budget := fun _ => 0 }
+  | .quiesce => quiesceLoop 64 { ({ s with budget := fun _ => 0 } : S) with bscript := [], bret := .waiting }
 
 /-- number of scripted calls of an item (to report the ones whose gap never came up) -/
 def Isr.size (e : Isr) : Nat := 1 + e.nested.length
